@@ -134,7 +134,10 @@ pub fn generate_bigram_info(
     }
 
     let mut bigram_right_wtr = BufWriter::new(bigram_right_wtr);
-    for id in 1..left_features.len() {
+    // Ids are emitted up to the largest defined one, so that a missing id (including a
+    // missing id 0) is reported instead of silently dropping the last id.
+    let max_right_id = left_features.keys().max().copied().unwrap_or(0);
+    for id in 1..=max_right_id {
         write!(&mut bigram_right_wtr, "{id}\t")?;
         if let Some(features) = left_features.get(&id) {
             for (i, feat_id) in features.iter().enumerate() {
@@ -157,7 +160,8 @@ pub fn generate_bigram_info(
     }
 
     let mut bigram_left_wtr = BufWriter::new(bigram_left_wtr);
-    for id in 1..right_features.len() {
+    let max_left_id = right_features.keys().max().copied().unwrap_or(0);
+    for id in 1..=max_left_id {
         write!(&mut bigram_left_wtr, "{id}\t")?;
         if let Some(features) = right_features.get(&id) {
             for (i, feat_id) in features.iter().enumerate() {
